@@ -1579,7 +1579,8 @@ class BuildManager:
 
 
 def deps_to_json(x: dict[str, set[str]]) -> bytes:
-    return json_dumps({k: list(v) for k, v in x.items()})
+    # Sort the sets so that the cache records do not depend on the hash seed.
+    return json_dumps({k: sorted(v) for k, v in x.items()})
 
 
 # File for storing metadata about all the fine-grained dependency caches
